@@ -80,9 +80,49 @@ NEEDED = ["T=1", "T=2", "T=3", "T:4..20", "T:20..1e3", "T:1e3..1e5", "T:1e5..2^2
           "peak strictly inside the move", "peak rate at +-(2^31-1)", "rate sign differs at the ends"]
 
 
+def edge_of_window(ctx, rng, n):
+    """Vertex a hair (a few 1/jerk) away from T-1.5 or 1.5 with T*|jerk| up to 2^31: accel is
+    -(T-2)*jerk + d or -jerk + d with |d| <= 3 - the interior tick must still be examined."""
+    from plotink import ebb_calc
+    done = 0
+    tries = 0
+    while done < n and tries < 60 * n:
+        tries += 1
+        time = rng.choice((4, 5, 6, 7, 9, 12, 20, 50, 200, 1000))
+        jmax = (2 ** 31 - 1) // max(time - 2, 1)
+        jerk = rng.choice((1, -1)) * rng.randint(max(1, jmax // 50), jmax)
+        d = rng.choice((-3, -2, -1, 0, 1, 2, 3))
+        upper = rng.random() < 0.6
+        accel = (-(time - 2) * jerk if upper else -jerk) + d
+        if abs(accel) > S.RMAX:
+            continue
+        # choose the start rate so that the rate at the vertex tick is large and the ends are in range
+        k = time - 1 if upper else 2
+        r_no_rate = S.t3_rate(0, accel, jerk, k)
+        sign = 1 if r_no_rate >= 0 else -1
+        rate = sign * rng.randint(0, S.RMAX) - r_no_rate + sign * rng.randint(0, 10 ** 6)
+        rate = max(-S.RMAX, min(S.RMAX, rate))
+        if not S.t3_in_domain(rate, accel, jerk, time):
+            rate = -r_no_rate // 2
+            if abs(rate) > S.RMAX or not S.t3_in_domain(rate, accel, jerk, time):
+                continue
+        ctx.case(["vertex within a few 1/jerk of the window edge (large jerk)",
+                  "edge:T-1.5" if upper else "edge:1.5"], (time, rate, accel, jerk))
+        try:
+            ebb_calc.max_rate_t3(time, rate, accel, jerk)
+        except Exception as exc:
+            ctx.violation("exception", {"fn": "max_rate_t3", "args": [time, rate, accel, jerk], "exception": repr(exc)})
+        done += 1
+    ctx.extra["edge_of_window_generator_tries"] = tries
+
+
 def run(ctx):
     install(ctx)
     rng = ctx.rng
+    edge_of_window(ctx, rng, ctx.budget(6_000, 60_000))
+    ctx.need("vertex within a few 1/jerk of the window edge (large jerk)", 3_000)
+    ctx.need("edge:T-1.5", 1_000)
+    ctx.need("edge:1.5", 1_000)
     n = ctx.budget(150_000, 1_500_000)
     done = 0
     while done < n and ctx.alive():
